@@ -788,11 +788,12 @@ def getHeader (r : Repo) (id : Nat) : Except ReadErr (Hdr × Int × Bool) :=
       | .ok hd => if hd.id ≠ id then .error .notAvailable else .ok (hd, h, true)
     | none => .error .unknown
 
-/-- `GetHeaders(start, max)` (max ≥ 1). -/
+/-- `GetHeaders(start, max)` (max ≥ 1); (repaired) never above the tip. -/
 def getHeaders (r : Repo) (start : Int) (max : Nat) : Except ReadErr (List Hdr) :=
   let rec go : Nat → Int → List Hdr → Except ReadErr (List Hdr)
     | 0, _, acc => .ok acc.reverse
     | k + 1, h, acc =>
+      if h > (r.br r.longest).height then .ok acc.reverse else
       match r.at r.longest h with
       | some d => go k (h + 1) (d.hdr :: acc)
       | none =>
